@@ -73,7 +73,7 @@ def run(ctx):
 
 def classify(ctx, fails, disagreements):
     for f in fails[:3]:
-        ctx.violation(f["what"], dict(kind="c17", **f))
+        ctx.violation(f["what"], {**f, "check": "c17"})
     if disagreements and not fails:
         ctx.broken.append(f"correspondence write_batch: {len(disagreements)}; first: {disagreements[0]}")
 
